@@ -453,4 +453,39 @@ theorem build_invMap [Neg R] [Star R] (v h : Bool) (m : ℕ) (st st' : List (Lea
     rw [ih, h1]
 
 
+theorem pendingRange_foldl [CommRing R] (I : R) (l : List (ℕ × Cmp R)) (a b : ℕ) :
+    let mm := l.foldl (fun mm p => (min mm.1 p.1, max mm.2 (p.1 + (p.2.toC01 I).size))) (a, b)
+    mm.1 ≤ a ∧ b ≤ mm.2 ∧ ∀ p ∈ l, mm.1 ≤ p.1 ∧ p.1 + (p.2.toC01 I).size ≤ mm.2 := by
+  induction l generalizing a b with
+  | nil => simp
+  | cons x r ih =>
+    simp only [List.foldl_cons]
+    obtain ⟨h1, h2, h3⟩ := ih (min a x.1) (max b (x.1 + (x.2.toC01 I).size))
+    refine ⟨le_trans h1 (Nat.min_le_left _ _), le_trans (Nat.le_max_left _ _) h2, ?_⟩
+    intro p hp
+    rcases List.mem_cons.1 hp with rfl | hp
+    · exact ⟨le_trans h1 (Nat.min_le_right _ _), le_trans (Nat.le_max_right _ _) h2⟩
+    · exact h3 p hp
+
+/-- the `min_r` / `max_r` bookkeeping of `non_unitary_circuit()` covers every pending component -/
+theorem pendingRange_within [CommRing R] (I : R) (N : ℕ) (pending : List (ℕ × Cmp R)) :
+    Within I (pendingRange I N pending).1
+      ((pendingRange I N pending).2 - (pendingRange I N pending).1) pending := by
+  intro p hp
+  obtain ⟨_, _, h3⟩ := pendingRange_foldl I pending N 0
+  have := h3 p hp
+  simp only [pendingRange]
+  omega
+
+
+theorem pendingRange_le [CommRing R] (I : R) (N : ℕ) (l : List (ℕ × Cmp R)) (a b : ℕ)
+    (hb : b ≤ N) (hl : ∀ p ∈ l, p.1 + (p.2.toC01 I).size ≤ N) :
+    (l.foldl (fun mm p => (min mm.1 p.1, max mm.2 (p.1 + (p.2.toC01 I).size))) (a, b)).2 ≤ N := by
+  induction l generalizing a b with
+  | nil => simpa using hb
+  | cons x r ih =>
+    simp only [List.foldl_cons]
+    exact ih _ _ (Nat.max_le.2 ⟨hb, hl x (by simp)⟩) (fun p hp => hl p (by simp [hp]))
+
+
 end PM.C11
